@@ -200,10 +200,9 @@ fn round_trip() -> Result<u64, String> {
     Ok(n)
 }
 
-pub fn run() -> Result<(), String> {
-    a64_ref::self_test()?;
-    round_trip()?;
-    Ok(())
+/// number of assertions evaluated: (reference vectors and identities, encoder/decoder round trips)
+pub fn run() -> Result<(u64, u64), String> {
+    Ok((a64_ref::self_test()?, round_trip()?))
 }
 
 /// Frozen floors (fraction of cases).  Every instruction class x addressing mode the lifter
@@ -242,6 +241,11 @@ pub fn floors() -> Vec<(&'static str, f64)> {
     ];
     let mut v: Vec<(&'static str, f64)> = PER_CLASS.iter().map(|c| (*c, 30.0 / 300_000.0)).collect();
     v.extend_from_slice(&[
+        // accepted since falcon commit bae6727 (PC-relative literal loads no longer panic)
+        ("ldr(w)|literal", 30.0 / 300_000.0),
+        ("ldr(x)|literal", 30.0 / 300_000.0),
+        ("ldrsw|literal", 30.0 / 300_000.0),
+        ("ldr(simd)|literal", 30.0 / 300_000.0),
         ("compared", 0.60),
         ("flags:carry-out", 0.002),
         ("flags:signed-overflow", 0.0005),
